@@ -13,8 +13,11 @@ pub const LAST_COL: i32 = 16_384;
 
 /// (clause, detail) for every violated clause of C27
 pub fn wellformed(node: &Node) -> Vec<(String, String)> {
+    wellformed_model(node.model(), node.stale)
+}
+
+pub fn wellformed_model(model: &ironcalc_base::Model, stale: bool) -> Vec<(String, String)> {
     let mut out: Vec<(String, String)> = Vec::new();
-    let model = node.model();
     let wb = &model.workbook;
     // sheet names
     let mut seen_names: HashSet<String> = HashSet::new();
@@ -92,7 +95,7 @@ pub fn wellformed(node: &Node) -> Vec<(String, String)> {
             }
         }
         // spill structure (only meaningful on an evaluated state)
-        if !node.stale {
+        if !stale {
             let mut owner: HashMap<(i32, i32), (i32, i32)> = HashMap::new();
             for (r, row) in &ws.sheet_data {
                 for (c, cell) in row {
@@ -242,6 +245,14 @@ impl Monitor {
         let mut nodes: Vec<(&str, &Node)> = vec![("primary", &w.primary)];
         for f in &w.followers {
             nodes.push(("follower", &f.node));
+        }
+        // the bare Model of the world (model-level operations)
+        if let (Which::Wellformed, Some(b)) = (self.which, &w.bare) {
+            self.checks += 1;
+            let problems = wellformed_model(b, false);
+            if let Some((clause, detail)) = problems.first() {
+                return Verdict::Violation(Violation::simple("wellformed", idx, ev_kind, clause, format!("bare model: {detail} (+{} more)", problems.len() - 1)));
+            }
         }
         for (name, n) in nodes {
             self.checks += 1;
